@@ -612,6 +612,7 @@ def run(repo, rep, tier):  # noqa: F811 -- round-5 shape rules appended to the r
     _c06b._override_sibling(repo, _O5(rep, {"R06.11"}))
     _r5.override_consulted_first(repo, rep, "R06.14")
     _r5.nonempty_schema_arrays(repo, rep, "R20.9")
+    _r5.namespace_default_is_value(repo, rep, "R20.10")
 
 
 _ADDR5B = ' R20.9: schemaArray keywords (prefixItems, anyOf, oneOf, allOf) are never rendered as an empty list (`<list> or None`, a non-empty display, or a comprehension over union members).'
@@ -623,3 +624,6 @@ LEVEL_TEXT += _ADDR5C
 _ADDR5D = " Borrowed: R06.11 (the schema-side override resolver tolerates every strategy form the packer's does)."
 EXPLANATION += _ADDR5D
 LEVEL_TEXT += _ADDR5D
+_ADDR5F = ' R20.10: a default that Instance.fields reads from the class namespace is filtered for slot member descriptors (dataclasses with slots=True keep one under every field name), so `default` is always a value.'
+EXPLANATION += _ADDR5F
+LEVEL_TEXT += _ADDR5F
